@@ -10,7 +10,7 @@ import hashlib
 import os
 import symtable
 from dataclasses import dataclass, field
-from typing import Dict, Iterator, List, Optional, Tuple
+from typing import Any, Dict, Iterator, List, Optional, Tuple
 
 
 class AnalysisError(Exception):
@@ -196,6 +196,44 @@ class Program:
                         yield from Program._defs_in_stmt(s2)
                 elif isinstance(sub, ast.stmt):
                     yield from Program._defs_in_stmt(sub)
+
+    # ------------------------------------------------------------------ value classes
+    def records(self) -> Dict[str, Tuple[Tuple[str, ...], Dict[str, Any], bool, frozenset]]:
+        """Plain value classes of the package: NamedTuples and dataclasses without a constructor of their own.
+        qualname -> (fields in constructor order, constant defaults, is-a-tuple, fields that are never re-assigned)."""
+        cached = getattr(self, "_records", None)
+        if cached is not None:
+            return cached
+        out: Dict[str, Tuple[Tuple[str, ...], Dict[str, Any], bool, frozenset]] = {}
+        stored = set()
+        for m in self.modules.values():
+            for n in ast.walk(m.tree):
+                if isinstance(n, ast.Attribute) and isinstance(n.ctx, (ast.Store, ast.Del)):
+                    stored.add(n.attr)
+        for qn, ci in self.classes.items():
+            is_nt = any(b.rsplit(".", 1)[-1] == "NamedTuple" for b in ci.bases)
+            is_dc = any((dotted(d.func if isinstance(d, ast.Call) else d) or "").rsplit(".", 1)[-1] == "dataclass" for d in ci.decorators)
+            if not (is_nt or is_dc) or len(ci.bases) > (1 if is_nt else 0):
+                continue
+            if any(m in ci.methods for m in ("__init__", "__new__", "__post_init__")):
+                continue
+            fields: List[str] = []
+            defaults: Dict[str, Any] = {}
+            ok = True
+            for st in ci.node.body:
+                if isinstance(st, ast.AnnAssign) and isinstance(st.target, ast.Name):
+                    if "ClassVar" in ast.unparse(st.annotation):
+                        continue
+                    fields.append(st.target.id)
+                    if st.value is not None:
+                        if isinstance(st.value, ast.Constant):
+                            defaults[st.target.id] = st.value.value
+                        else:
+                            ok = False      # field(default_factory=...) and the like
+            if ok and fields:
+                out[qn] = (tuple(fields), defaults, is_nt, frozenset(f for f in fields if is_nt or f not in stored))
+        self._records = out  # type: ignore[attr-defined]
+        return out
 
     # ------------------------------------------------------------------ lookup
     def resolve_name(self, m: Module, name: str) -> str:
